@@ -1,11 +1,15 @@
 package checks
 
 import (
+	"context"
 	"encoding/json"
 	"errors"
 	"fmt"
 	"math/rand"
+	"net/http"
+	"net/http/httptest"
 	"reflect"
+	"runtime"
 	"sort"
 	"strings"
 	"sync"
@@ -83,6 +87,7 @@ func runC15(c *core.Ctx) {
 	case 0:
 		c15Schemas(c, fl)
 		c15Gen(c, fl)
+		c15Middleware(c, fl)
 	default:
 		c15Docs(c, fl)
 	}
@@ -505,4 +510,104 @@ func sortedMap(m map[string]string) string {
 		sb.WriteString(k + "=" + m[k] + ";")
 	}
 	return sb.String()
+}
+
+// ---------------- L4: the validation middleware under concurrent requests ----------------
+
+// c15Middleware: one Validator.Middleware handler (strict and non-strict) serves many requests at once; every client must
+// get the status, header and body its own handler invocation wrote (or the gate's answer for its own invalid request).
+func c15Middleware(c *core.Ctx, fl *inflight) {
+	doc := baseDoc(gen.S{"/m/{id}": gen.S{"get": gen.S{
+		"parameters": gen.Arr(gen.S{"name": "id", "in": "path", "required": true, "schema": gen.S{"type": "integer"}}, gen.S{"name": "x", "in": "query", "schema": gen.S{"type": "integer"}}),
+		"responses": gen.S{"200": gen.S{"description": "d", "headers": gen.S{"X-Id": gen.S{"required": true, "schema": gen.S{"type": "integer"}}},
+			"content": gen.S{"application/json": gen.S{"schema": gen.S{"type": "object", "required": gen.Arr("id"), "properties": gen.S{"id": gen.S{"type": "integer"}, "pad": gen.S{"type": "string"}}}}}},
+			"404": gen.S{"description": "nf", "content": gen.S{"application/json": gen.S{"schema": gen.S{"type": "object", "properties": gen.S{"missing": gen.S{"type": "integer"}}}}}}},
+	}}})
+	d, err := loadDoc(doc)
+	if err != nil {
+		c.Note("L4 doc: %v", err)
+		return
+	}
+	rounds := c.Pick(6, 60)
+	for round := 0; round < rounds; round++ {
+		for _, strict := range []bool{true, false} {
+			router, err := gorillamux.NewRouter(d)
+			if err != nil {
+				return
+			}
+			handler := http.HandlerFunc(func(w http.ResponseWriter, r *http.Request) {
+				var id int
+				fmt.Sscanf(strings.TrimPrefix(r.URL.Path, "/m/"), "%d", &id)
+				if id%7 == 3 {
+					w.Header().Set("Content-Type", "application/json")
+					w.WriteHeader(404)
+					fmt.Fprintf(w, `{"missing":%d}`, id)
+					return
+				}
+				w.Header().Set("Content-Type", "application/json")
+				w.Header().Set("X-Id", fmt.Sprint(id))
+				// written in pieces
+				fmt.Fprintf(w, `{"id":%d,`, id)
+				runtime.Gosched()
+				fmt.Fprintf(w, `"pad":"%s"}`, strings.Repeat("p", id%50))
+			})
+			mw := openapi3filter.NewValidator(router, openapi3filter.Strict(strict), openapi3filter.OnLog(func(context.Context, string, error) {})).Middleware(handler)
+			G := []int{8, 32, 64}[round%3]
+			per := 25
+			type res struct {
+				id, code     int
+				body, header string
+			}
+			out := make([][]res, G)
+			var wg sync.WaitGroup
+			start := make(chan struct{})
+			for g := 0; g < G; g++ {
+				wg.Add(1)
+				go func(g int) {
+					defer wg.Done()
+					<-start
+					for k := 0; k < per; k++ {
+						id := g*1000 + k + round*7
+						target := fmt.Sprintf("http://h.t/m/%d?x=1", id)
+						if k%9 == 4 {
+							target = fmt.Sprintf("http://h.t/m/%d?x=notanumber", id) // stopped at the gate
+						}
+						rec := httptest.NewRecorder()
+						req := httptest.NewRequest("GET", target, nil)
+						fl.enter(1)
+						core.Guard(func() { mw.ServeHTTP(rec, req) })
+						fl.leave(1)
+						out[g] = append(out[g], res{id, rec.Code, rec.Body.String(), rec.Header().Get("X-Id")})
+					}
+				}(g)
+			}
+			close(start)
+			wg.Wait()
+			c.EvalN(G * per)
+			c.Distinct(fmt.Sprintf("L4/round%d/strict=%v/G%d", round, strict, G))
+			c.Cover("layers", "L4-middleware-rounds")
+			for g := range out {
+				for k, r := range out[g] {
+					var wantCode int
+					var wantBody, wantHdr string
+					switch {
+					case k%9 == 4:
+						wantCode = 400
+					case r.id%7 == 3:
+						wantCode, wantBody = 404, fmt.Sprintf(`{"missing":%d}`, r.id)
+					default:
+						wantCode, wantHdr = 200, fmt.Sprint(r.id)
+						wantBody = fmt.Sprintf(`{"id":%d,"pad":"%s"}`, r.id, strings.Repeat("p", r.id%50))
+					}
+					bad := r.code != wantCode || (wantCode != 400 && (r.body != wantBody || r.header != wantHdr))
+					if bad {
+						c.Violate(map[string]string{"kind": "concurrent_outcome_differs_from_sequential", "layer": "L4", "part": "middleware response", "strict": fmt.Sprint(strict)},
+							map[string]any{"request_id": r.id, "got_status": r.code, "got_body": core.Truncate(r.body, 200), "got_x_id": r.header, "want_status": wantCode, "want_body": core.Truncate(wantBody, 200)},
+							fmt.Sprintf("middleware strict=%v, %d goroutines: request for id %d got status %d X-Id=%q body %q, its own handler invocation wrote status %d X-Id=%q body %q", strict, G, r.id, r.code, r.header, core.Truncate(r.body, 120), wantCode, wantHdr, core.Truncate(wantBody, 120)))
+						break
+					}
+				}
+			}
+		}
+	}
 }
